@@ -267,7 +267,10 @@ def element_parsing(
             # Do not repeat structural elements if they are being added to the same part.
             if not same_part:
                 part.add(element, start=current_tl_pos)
-                line2pos[doc_lines[i]] = current_tl_pos
+                # only at a barline all spines stand at the same time: an interpretation
+                # line may lie between two tokens of another spine
+                if isinstance(element, spt.Measure):
+                    line2pos[doc_lines[i]] = current_tl_pos
             else:
                 if isinstance(element, spt.Measure):
                     current_tl_pos = measure_mapping[element.number]
